@@ -52,6 +52,7 @@ type sumMerger struct{ fl kv.Flusher }
 
 func (m *sumMerger) Init(map[string]interface{}) {}
 func (m *sumMerger) Merge(key uint32, values [][]byte) error {
+	closeGateAt() // close-vs-background-job case: parks a job that runs after CloseStore returned (closejob.go)
 	var s uint64
 	for _, v := range values {
 		s += binary.BigEndian.Uint64(v)
@@ -599,6 +600,8 @@ type famObs struct {
 	seqs    string
 	files   []int64 // every table number of the version (all levels)
 	rollup  []int64 // keys of the rollup map
+	rollTok string  // rollup marks: file:[target intervals], sorted by file
+	refTok  string  // reference files: store(hex)/family:[files], sorted
 	loadErr string
 }
 
@@ -670,7 +673,8 @@ func observe(st kv.Store, levels int) storeObs {
 			}
 			rp = append(rp, fmt.Sprintf("%d:[%s]", k, strings.Join(is, ",")))
 		}
-		sb.WriteString(";r=" + strings.Join(rp, ","))
+		fo.rollTok = strings.Join(rp, ",")
+		sb.WriteString(";r=" + fo.rollTok)
 		var xp []string
 		for store, fams := range v.GetAllReferenceFiles() {
 			for fid, files := range fams {
@@ -682,7 +686,8 @@ func observe(st kv.Store, levels int) storeObs {
 			}
 		}
 		sort.Strings(xp)
-		sb.WriteString(";x=" + strings.Join(xp, ","))
+		fo.refTok = strings.Join(xp, ",")
+		sb.WriteString(";x=" + fo.refTok)
 		fo.ver = sb.String()
 		for k := uint32(0); k < maxKeyU; k++ {
 			err := snap.Load(k, func(value []byte) error {
@@ -744,11 +749,25 @@ func (o storeObs) contentAll() string {
 	return strings.Join(ps, " ")
 }
 
-// propKey is what the property speaks about: families, their key/value content, their sequences.
-func (o storeObs) propKey() string {
+// kvKey: families, their key/value content, their sequences.
+func (o storeObs) kvKey() string {
 	var ps []string
 	for _, f := range o.fams {
 		ps = append(ps, fmt.Sprintf("F%s/%d{%s|%s}", f.name, f.id, f.contentTok(), f.seqs))
+	}
+	return strings.Join(ps, " ")
+}
+
+// propKey is what the property speaks about — the committed content of every family: key/value content,
+// sequences, AND the rollup bookkeeping the commits carried (rollup marks of flushed tables per target
+// interval, reference files per source store / family). The property's histories name rollup-bookkeeping
+// operations, and "the single operation in flight may appear entirely or not at all" speaks about the whole
+// commit: a flush's table without its rollup marks (or marks without the table) is a half-applied flush, and a
+// reference record recovered under another store name is not the committed state.
+func (o storeObs) propKey() string {
+	var ps []string
+	for _, f := range o.fams {
+		ps = append(ps, fmt.Sprintf("F%s/%d{%s|%s|r=%s|x=%s}", f.name, f.id, f.contentTok(), f.seqs, f.rollTok, f.refTok))
 	}
 	return strings.Join(ps, " ")
 }
@@ -883,6 +902,7 @@ type hist struct {
 	probeThr int    // ... and its CompactThreshold
 	via      map[string]kv.Family // flushes of this family go through this handle (a creator's own handle) instead of GetFamily
 	scripted bool   // a directed scenario: no random deaths
+	afterOverride string // an operation that ends with the store closed: the committed state after it, read from the directory
 	forceDie string // die once at the first image whose previous operation has this kind (inside the next op that has one)
 }
 
@@ -1239,6 +1259,11 @@ func (h *hist) finishOp(name, opLine, out, before string, dieAllowed bool) {
 	if h.store != nil && !h.failed {
 		lo := h.liveObs()
 		after = lo.propKey()
+		// an open commits nothing: the store it returns shows exactly the committed state the directory held
+		// (the content of the commits that had returned success), not merely "whatever recovery yields"
+		if name == "open" && after != before {
+			h.c.Fail("reopen-changed-committed-state", fmt.Sprintf("the store was opened on a directory whose committed state is %q, it shows %q", before, after))
+		}
 		// the allocator of the LIVE store: the number the next table gets is above every number the current
 		// versions reference (property clause "never reuses the number of a file the state still references")
 		for _, f := range lo.fams {
@@ -1249,6 +1274,9 @@ func (h *hist) finishOp(name, opLine, out, before string, dieAllowed bool) {
 				}
 			}
 		}
+	}
+	if h.afterOverride != "" {
+		after = h.afterOverride
 	}
 	// codec tie: every record the implementation wrote is re-encoded / decoded by the model
 	for _, o := range ops {
@@ -1663,6 +1691,9 @@ func runCase(c *core.Ctx, i int, maxOps int) error {
 	case 1:
 		h.rollup = []int64{300000, 3600000}
 	}
+	if i == 8 {
+		h.rollup = []int64{300000} // directed case 8: every flush commit carries rollup marks
+	}
 	rollTok := "-"
 	if len(h.rollup) > 0 {
 		rollTok = joinInts(h.rollup)
@@ -1853,7 +1884,7 @@ func runCase(c *core.Ctx, i int, maxOps int) error {
 }
 
 // nScenarios directed histories run first in every seed (values are still drawn from the case's PRNG).
-const nScenarios = 8
+const nScenarios = 10
 
 func (h *hist) randKVs(n int) [][2]int64 {
 	var kvs [][2]int64
@@ -1914,6 +1945,43 @@ func runScenario(h *hist, which int) {
 	open()
 	step(func() { h.doCreateFamily("10", thr) })
 	switch which {
+	case 8:
+		// reference records (rollup TARGET bookkeeping) of several source stores with DIFFERENT names inside one
+		// manifest, each followed by ordinary commits (other bytes at the same record offsets: the entry reader
+		// re-uses one buffer for all records of a manifest), a delete-reference; every crash image of every
+		// later commit replays them; close, reopen, a second round on the recovered state, close, reopen
+		h.c.Branch("scenario:reference-records-of-several-stores")
+		hx := func(s string) string { return hex.EncodeToString([]byte(s)) }
+		step(func() { h.flushNow("10", true) })
+		step(func() { h.doEdit("10", []string{"nref," + hx("seg/20190702") + ",1,2"}) })
+		step(func() { h.flushNow("10", true) })
+		step(func() {
+			h.doEdit("10", []string{"nref," + hx("s1") + ",2,3", "nref," + hx("a-much-longer-source-store-name/2019") + ",1,4"})
+		})
+		step(func() { h.doCreateFamily("11", 3) })
+		step(func() { h.flushNow("11", true) })
+		step(func() { h.doEdit("11", []string{"nref," + hx("day") + ",1,2", "nref," + hx("month") + ",1,2"}) })
+		step(func() { h.doEdit("10", []string{"dref," + hx("s1") + ",2,3"}) })
+		step(func() { h.flushNow("10", false) })
+		closeS()
+		open()
+		step(func() { h.doEdit("10", []string{"dref," + hx("seg/20190702") + ",1,2", "nref," + hx("seg/20190703") + ",1,5"}) })
+		step(func() { h.flushNow("11", false) })
+		step(func() { h.doCompact("10") })
+		closeS()
+		open()
+	case 9:
+		// close right after the production start of a background compaction (Family.Compact()), see closejob.go
+		h.c.Branch("scenario:close-vs-background-compaction")
+		step(func() { h.flushNow("10", true) })
+		step(func() { h.flushNow("10", false) })
+		step(func() { h.doBgCompactClose("10") })
+		open()
+		step(func() { h.flushNow("10", false) })
+		step(func() { h.flushNow("10", false) })
+		step(func() { h.flushNow("10", false) })
+		step(func() { h.doBgCompactClose("10") })
+		open()
 	case 6:
 		// concurrent creators of one new family, the first one parked at each of its file-system seams in turn;
 		// then flushes through BOTH handles (start, commit: all crash images), compaction, close, reopen
